@@ -44,8 +44,10 @@ let spec fs obs = match fs with
               if op = "06" then
                 (if spec_ok_C06 (ext8_of ext) stream (fin = "END") then "ok" else "bad")
               else if fin <> "END" then "pre"          (* nothing was delivered: Qremote reported a failure *)
-              else if pq = "P" then (if spec_ok_C07_plain (bytes_of_hex msg) stream then "ok" else "bad")
-              else "pre"))
+              else
+                let helo = (match fs with _ :: _ :: _ :: h :: _ -> h | _ -> default_helo) in
+                (match spec_ok_C07 (bytes_of_hex msg) (bytes_of_hex helo) stream (pq = "Q") with
+                 | Some true -> "ok" | Some false -> "bad" | None -> "pre")))
   | _ -> "BADCASE"
 
 let () =
